@@ -219,43 +219,74 @@ func (c *Ctx) canonKey(pk *pkgT, cf *cfgx.Func, e ast.Expr) string {
 	e = cf.Resolve(e)
 	if sel, ok := ast.Unparen(e).(*ast.SelectorExpr); ok {
 		if call, ok := ast.Unparen(cf.Resolve(sel.X)).(*ast.CallExpr); ok {
-			if f := Callee(info, call); f != nil {
-				if fd := c.P.Decl(f); fd != nil && len(fd.Body.List) == 1 {
-					if ret, ok := fd.Body.List[0].(*ast.ReturnStmt); ok && len(ret.Results) == 1 {
-						r := ast.Unparen(ret.Results[0])
-						if u, ok := r.(*ast.UnaryExpr); ok && u.Op == token.AND {
-							r = u.X
-						}
-						if cl, ok := r.(*ast.CompositeLit); ok {
-							fpk := c.P.PkgOfDecl(fd)
-							for _, el := range cl.Elts {
-								kv, ok := el.(*ast.KeyValueExpr)
-								if !ok {
-									continue
-								}
-								if id, ok := kv.Key.(*ast.Ident); ok && id.Name == sel.Sel.Name {
-									// substitute parameters by arguments
-									subst := map[string]string{}
-									i := 0
-									for _, fl := range fd.Type.Params.List {
-										for _, nm := range fl.Names {
-											if i < len(call.Args) {
-												subst[nm.Name] = types.ExprString(cf.Resolve(call.Args[i]))
-											}
-											i++
-										}
-									}
-									_ = fpk
-									return substExpr(kv.Value, subst)
-								}
-							}
-						}
-					}
-				}
+			var args []string
+			for _, a := range call.Args {
+				args = append(args, types.ExprString(cf.Resolve(a)))
+			}
+			if s, ok := c.ctorField(info, call, args, sel.Sel.Name, 0); ok {
+				return s
 			}
 		}
 	}
 	return types.ExprString(e)
+}
+
+// ctorField renders field `name` of the value a single-return constructor builds, with the
+// constructor's parameters replaced by the given argument texts; a constructor that
+// delegates to another one (`return newTag(TagName(name), title)`) is followed.
+func (c *Ctx) ctorField(info *types.Info, call *ast.CallExpr, args []string, name string, depth int) (string, bool) {
+	if depth > 3 {
+		return "", false
+	}
+	f := Callee(info, call)
+	if f == nil {
+		return "", false
+	}
+	fd := c.P.Decl(f)
+	if fd == nil || len(fd.Body.List) != 1 {
+		return "", false
+	}
+	ret, ok := fd.Body.List[0].(*ast.ReturnStmt)
+	if !ok || len(ret.Results) != 1 {
+		return "", false
+	}
+	subst := map[string]string{}
+	i := 0
+	for _, fl := range fd.Type.Params.List {
+		for _, nm := range fl.Names {
+			if i < len(args) {
+				subst[nm.Name] = args[i]
+			}
+			i++
+		}
+	}
+	fpk := c.P.PkgOfDecl(fd)
+	r := ast.Unparen(ret.Results[0])
+	if u, ok := r.(*ast.UnaryExpr); ok && u.Op == token.AND {
+		r = u.X
+	}
+	switch x := r.(type) {
+	case *ast.CompositeLit:
+		for _, el := range x.Elts {
+			kv, ok := el.(*ast.KeyValueExpr)
+			if !ok {
+				continue
+			}
+			if id, ok := kv.Key.(*ast.Ident); ok && id.Name == name {
+				return substExpr(kv.Value, subst), true
+			}
+		}
+	case *ast.CallExpr:
+		if fpk == nil {
+			return "", false
+		}
+		var inner []string
+		for _, a := range x.Args {
+			inner = append(inner, substExpr(a, subst))
+		}
+		return c.ctorField(fpk.TypesInfo, x, inner, name, depth+1)
+	}
+	return "", false
 }
 
 func substExpr(e ast.Expr, subst map[string]string) string {
@@ -865,6 +896,11 @@ func (c *Ctx) slotOf(pk *pkgT, fd *ast.FuncDecl, bi bodyInfo, e ast.Expr) string
 					cur = call
 					continue
 				}
+				// result i of a lookup helper:  id, v, err := c.findInteraction(d)  where the
+				// helper returns  id, COLL.GetValue(id).(*T), nil
+				if s := c.slotThroughHelper(pk, cf, obj, path); s != "" {
+					return s
+				}
 				// defined in the enclosing function body
 				if bi.lit != nil {
 					ocf := c.CFG(pk, fd.Body)
@@ -1355,4 +1391,60 @@ func (c *Ctx) h1CallersLookedUp(pk *pkgT, fd *ast.FuncDecl, ix *ast.IndexExpr) (
 		}
 	}
 	return fmt.Sprintf("the key is a parameter and all %d callers reach the call only after a lookup (not found) of it", len(sites)), true
+}
+
+// slotThroughHelper: obj is result i of a helper call `a, obj, err := h(...)`; the helper's
+// success returns hand out, at position i, a local defined as COLL.GetValue(k) / COLL.Get(k)
+// with k the local handed out at position j: the slot is COLL[<caller's j-th variable>].
+func (c *Ctx) slotThroughHelper(pk *pkgT, cf *cfgx.Func, obj types.Object, path []string) string {
+	info := pk.TypesInfo
+	rhs, idx, ok := cf.TupleDefOf(obj)
+	if !ok {
+		return ""
+	}
+	call, ok := ast.Unparen(rhs).(*ast.CallExpr)
+	if !ok {
+		return ""
+	}
+	h := Callee(info, call)
+	hd := c.P.Decl(h)
+	if hd == nil {
+		return ""
+	}
+	hpk := c.P.PkgOfDecl(hd)
+	ros := c.resultObjs(hpk, hd, retSuccess)
+	if idx >= len(ros) || ros[idx] == nil {
+		return ""
+	}
+	cfh := c.CFG(hpk, hd.Body)
+	def := cfh.DefOf(ros[idx])
+	if def == nil {
+		return ""
+	}
+	e := ast.Unparen(def)
+	if ta, ok := e.(*ast.TypeAssertExpr); ok {
+		e = ast.Unparen(ta.X)
+	}
+	get, ok := e.(*ast.CallExpr)
+	if !ok || len(get.Args) != 1 {
+		return ""
+	}
+	if f := Callee(hpk.TypesInfo, get); f == nil || (f.Name() != "GetValue" && f.Name() != "Get") {
+		return ""
+	}
+	kid, ok := ast.Unparen(get.Args[0]).(*ast.Ident)
+	if !ok {
+		return ""
+	}
+	kobj := hpk.TypesInfo.ObjectOf(kid)
+	lhs := cf.AssignOf(obj)
+	if lhs == nil {
+		return ""
+	}
+	for j, ro := range ros {
+		if ro != nil && ro == kobj && j < len(lhs.Lhs) {
+			return types.ExprString(Recv(get)) + "[" + types.ExprString(lhs.Lhs[j]) + "]." + strings.Join(path, ".")
+		}
+	}
+	return ""
 }
